@@ -18,7 +18,7 @@ COMMON_ASSUMPTIONS = [
 
 CHECKS = {
     "C10": {
-        "extra_props": ["Props/C10_src.v"],
+        "extra_props": ["Props/C10_src.v", "Props/C10_ir.v"],
         "module": "p_c10",
         "rule": "seeded random scenarios (1-4 submitter threads x 1-3 submits, 1-2 shutdown calls, optional second shutdown thread, "
                 "environment completing delegate futures, late submit) x {random, sticky, PCT} schedules; every implementation "
@@ -122,7 +122,7 @@ CHECKS = {
         "assumptions": ["PARTIAL: refinement of seq_eval by the composed implementation is validated by this differential, proved only per layer"],
     },
     "C11": {
-        "extra_props": ["Props/C11_Chain.v", "Props/C11_src.v"],
+        "extra_props": ["Props/C11_Chain.v", "Props/C11_src.v", "Props/C11_ir.v"],
         "modules": ["p_c11", "p_c11g", "p_c11c"],
         "rule": "p_c11c: the shutdown chain as a machine (Model/Chain.v): random stacks as p_c11 plus users shutting down inner layers, callables calling back into submit/shutdown, worker-thread delegate submissions; every history is projected to per-layer shutdown/submit calls, gate operations and worker exits and replayed on the extracted machine; p_c11g: helpers.ShutdownHelper in lockstep with Model/Gate.v, 2-4 threads x 1-3 calls of helper() / ensure_alive(); p_c11: seeded scenarios on real stacks: depth 1-4 over the seven layer kinds, base sync or the real ThreadPoolExecutor, workload "
                 "idle/quick/failing (sleeping between retries)/blocked callables/polling, shutdown(wait True/False, with/without "
@@ -133,7 +133,7 @@ CHECKS = {
         "assumptions": ["PARTIAL: cross-layer propagation/joining is decided by the monitor on explored schedules; the gate protocol is proved for any number of threads"],
     },
     "C04": {
-        "extra_props": ["Props/C04_retry.v", "Props/C04_poll.v", "Props/C04_throttle.v", "Props/C04_timeout.v", "Props/C04_src.v"],
+        "extra_props": ["Props/C04_retry.v", "Props/C04_poll.v", "Props/C04_throttle.v", "Props/C04_timeout.v", "Props/C04_src.v", "Props/C04_layers.v"],
         "modules": ["p_c04", "p_c04r", "p_c04t", "p_c04p", "p_c04o", "p_c04c", "p_c04m", "p_c04b"],
         "rule": "p_c04t / p_c04p / p_c04o / p_c04c / p_c04m / p_c04b: the lockstep families of C07, C08, C09, C10, C13, C14 (every component machine) with the deadlock / dead-thread verdicts of their monitors; p_c04r: the Retry lockstep family (C05) with the pending / late / deadlock verdicts (a result() or shutdown(wait=True) that would wait for ever on the submit thread); p_c04: seeded scenarios on real stacks: depth 1-4 over the seven layer kinds, base sync or the real ThreadPoolExecutor, client programs "
                 "of 1-3 threads x 1-4 operations {submit, submit whose callable submits again, cancel, add_done_callback, add_done_callback "
